@@ -43,9 +43,10 @@ def selfvalidate(rep, pid):
     import concurrent.futures as cf
     from . import selftest
     vs = [v for v in selftest.load_variants() if v["pid"] == pid]
-    if not vs:
-        rep.note("no self-validation variants registered for this property")
-        return
+    # whole-package twins: every check must stay silent when all locals are respelled
+    vs.append(dict(pid=pid, name="twin: every local variable renamed (suffix _r)", expect="silent", edits=[], tier="quick", mentions=None, transform="rename_locals"))
+    vs.append(dict(pid=pid, name="twin: every local variable renamed (prefix tmp_)", expect="silent", edits=[], tier="quick", mentions=None, transform="rename_locals",
+                   suffix="", prefix="tmp_"))
     with cf.ThreadPoolExecutor(min(16, os.cpu_count() or 4)) as ex:
         res = list(ex.map(selftest.run_variant, vs))
     bad = [r for r in res if not r["ok"]]
